@@ -1,0 +1,11 @@
+//go:build !verif
+
+// Package verifhook holds the instrumentation points of the external verification harness.
+// Without the build tag "verif" they compile to nothing.
+package verifhook
+
+import "crypto/elliptic"
+
+func Random(n int) []byte                  { return nil }
+func EcScalar(curve elliptic.Curve) []byte { return nil }
+func Event(name string)                    {}
